@@ -67,11 +67,15 @@ func c09Batch(r *vc.Run, bi int, cfg atUndoCfg, n int) {
 	defer env.Close()
 	rnd := vc.NewRand(r.Seed, fmt.Sprintf("c09-%d", bi))
 	for i := 0; i < n; i++ {
-		pk := []string{"int", "composite", "varchar", "autoinc"}[rnd.Intn(4)]
+		pk := []string{"int", "composite", "varchar", "autoinc", "composite_txt"}[rnd.Intn(5)]
 		t := atGenTable(rnd, fmt.Sprintf("f%d_%04dt", bi, i), pk, []string{"int", "bigint", "varchar", "varchar_num", "double", "datetime"}, 3, 4+rnd.Intn(3), false)
 		c := &atCase{Name: fmt.Sprintf("f%d_%04d", bi, i), Tables: []*atTable{t}, Feat: map[string]string{"pk": pk, "cfg": cfg.String()}}
 		seq := 0
 		many := rnd.Intn(3) == 0
+		if pk == "composite_txt" {
+			// several rows with look-alike keys in one statement
+			many = rnd.Intn(4) != 0
+		}
 		rc := "1"
 		if many {
 			rc = "many"
@@ -100,6 +104,9 @@ func c09Batch(r *vc.Run, bi int, cfg atUndoCfg, n int) {
 		foreign := c09Foreign[rnd.Intn(len(c09Foreign))]
 		if st.Feat["stmt"] == "update-same-values" {
 			foreign = []string{"change-written-column", "change-written-column", "none", "delete-row"}[rnd.Intn(4)]
+		}
+		if pk == "composite_txt" && many && rnd.Bool() {
+			foreign = "some-rows"
 		}
 		near := rnd.Bool()
 		c.Feat["foreign"] = foreign
